@@ -93,7 +93,8 @@ pub fn history(cfg: &Cfg, rep: &mut Report, fl: Flavour, h: u64, steps: usize) {
     let w = World::new(100 + rng.below(50) as u32, min_temp);
     let n = 5;
     let initial: i128 = *rng.pick(&[0, 1000, 1 << 40, i128::MAX / 2, i128::MAX - 3]);
-    let (tok, ctor_evs) = Token::deploy(&w, fl, n, initial);
+    // the last address is a classic account, so that transfers can name it as a multiplexed recipient
+    let (tok, ctor_evs) = Token::deploy_with(&w, fl, n, initial, true);
     let mut m = FModel::new(n);
     let mut fold = EventFold::default();
     rep.op(format!("deploy {} n={n} initial={initial} min_temp_ttl={min_temp} ledger={}", fl.name(), w.ledger()));
@@ -149,7 +150,15 @@ pub fn history(cfg: &Cfg, rep: &mut Report, fl: Flavour, h: u64, steps: usize) {
             gen_op(&mut rng, &m, fl, cur, max_live)
         };
         let want = m.predict(&op, cur, max_live, fl);
+        // a transfer to the classic account names it as a multiplexed address two times out of three:
+        // the tokens must be credited to (and every gate evaluated on) the underlying account
+        let mux = matches!(op, Op::Transfer { to, .. } if to == n - 1) && rng.chance(2, 3);
+        tok.mux_to.set(if mux { Some(1 + rng.below(1 << 40)) } else { None });
         let got = tok.exec(&op, None);
+        tok.mux_to.set(None);
+        if mux {
+            rep.count(&format!("muxed_transfer:{}", tag(&got)));
+        }
         rep.evaluations += 1;
         let evs = obs::events(&w.env);
         rep.op(format!("#{step} @{cur} {op:?} -> {}", tag(&got)));
